@@ -28,7 +28,9 @@ from enc import PARAM_GATES  # noqa: E402
 M = 8
 PAR = int(os.environ.get("VERIF_JVMS", "16"))
 ALL_OPS = ["new", "add", "addbad", "concat", "repeat", "copy", "inverse", "trim", "reindex", "split", "stack", "small",
-           "redundant", "merge", "simplify", "translate", "simulate", "depth", "iterate", "str", "eq"]
+           "redundant", "merge", "simplify", "translate", "simulate", "depth", "iterate", "str", "eq", "setparam"]
+DERIVED_OPS = ["stack0", "stack1"]        # offered together with "stack"
+OUT_OF_PLACE = {"concat", "repeat", "copy", "inverse", "stack", "stack0", "stack1", "small", "redundant", "merge", "simplify", "split"}
 FN = {"small": "remove_small_rotations", "redundant": "remove_redundant_gates", "merge": "merge_rotations", "simplify": "simplify"}
 
 
@@ -187,8 +189,25 @@ def apply(heap, act):
             results = o.split(trim_qubits=bool(act["rq"]))
         elif op == "stack":
             heap[d] = stack(o, o2)
+        elif op == "stack0":
+            heap[d] = stack()
+        elif op == "stack1":
+            heap[d] = stack(o) if act["form"] == "fn" else o.stack()
+        elif op == "setparam":
+            # in-place change of a gate parameter through iteration (documented as allowed for variational gates)
+            for g in o:
+                if g.name in PARAM_GATES and not isinstance(g.parameter, str) and not type(g.parameter).__module__.startswith("sympy"):
+                    g.parameter = g.parameter + k_to_angle(2, M)
+                    break
         elif op in FN:
             kw = {} if op == "merge" else {"remove_qubits": bool(act["rq"])}
+            opt = act.get("bad", "")
+            if opt in ("mc0", "mc1"):
+                kw["max_cycles"] = int(opt[2])
+            elif opt == "thr2":
+                kw["param_threshold"] = 2.0
+            elif opt == "thr0":
+                kw["param_threshold"] = 1e-9
             if act["form"] == "fn":
                 heap[d] = getattr(cmod, FN[op])(o, **kw)
             else:
@@ -217,6 +236,36 @@ def apply(heap, act):
     return False, results
 
 
+def gate_objects(c):
+    """ids of the gate objects of a circuit and of their index lists (for the freshness observation)."""
+    ids = set()
+    for g in c:
+        ids.add(id(g))
+        ids.add(id(g.target))
+        if g.control is not None:
+            ids.add(id(g.control))
+    return ids
+
+
+def aliases(heap, act, results):
+    """Slots (other than the one written) whose object is the result of this out-of-place operation or shares a gate
+    object / index list with it. Recorded observation; judged by C11Trace (clause result-aliases-operand)."""
+    if act["op"] not in OUT_OF_PLACE or (act["op"] in FN and act.get("form") == "method"):
+        return []
+    new = list(results) if act["op"] == "split" else ([heap[act["dst"] - 1]] if act["dst"] else [])
+    out = []
+    for r in new:
+        if r is None:
+            continue
+        rid = gate_objects(r)
+        for s, c in enumerate(heap, 1):
+            if c is None or (act["op"] != "split" and s == act["dst"]):
+                continue
+            if c is r or (rid & gate_objects(c)):
+                out.append(s)
+    return sorted(set(out))
+
+
 def replay_history(hist, nslots):
     """-> list of step records (act, raised, heap dumps, result dumps)."""
     heap = [None] * nslots
@@ -225,7 +274,10 @@ def replay_history(hist, nslots):
         if (act["o"] and heap[act["o"] - 1] is None) or (act["o2"] and heap[act["o2"] - 1] is None):
             break       # an earlier operation failed in the implementation: the rest of the generated history does not apply
         raised, results = apply(heap, act)
-        steps.append({"act": act, "raised": bool(raised), "heap": [dump(c) for c in heap], "results": [dump(r) for r in results]})
+        steps.append({"act": act, "raised": bool(raised), "heap": [dump(c) for c in heap], "results": [dump(r) for r in results],
+                      "alias": [] if raised else aliases(heap, act, results)})
+        if act["op"] == "reindex" and act.get("bad") == "invalid-new-indices" and not raised:
+            break       # the implementation accepted arguments the specification rejects: the object left the state space
     return steps
 
 
@@ -273,6 +325,11 @@ def plan(chk):
     # width-sensitive operation (copy, inverse, *, add_gate at the boundaries, remove_*, +, stack), on fixed and free objects
     add("bfs3_index", 2, 3, ["reindex", "trim", "add", "copy", "inverse", "repeat", "small", "redundant", "concat", "stack"], False,
         thin=3 if q else 1, prefix="PrefixIndex2", workers=6)
+    # freshness scenario: every out-of-place operation with every documented optional argument, on empty / non-empty,
+    # free / fixed-width circuits, followed by a mutation (add_gate, trim_qubits, reindex_qubits, in-place parameter change)
+    # of any object - in particular of the result: the operands must not change (frame)
+    add("bfs2_fresh", 2, 2, ["concat", "repeat", "copy", "inverse", "stack", "small", "redundant", "merge", "simplify", "split",
+                             "add", "trim", "setparam", "reindex"], False, thin=6 if q else 1, prefix="PrefixFresh", workers=6)
     if not q:
         add("bfs2_rich", 2, 2, core + ["small", "simplify", "stack", "split"], True, thin=3, workers=8)
         add("bfs3_small", 2, 3, ["add", "copy", "trim", "reindex", "translate", "redundant", "concat"], False, thin=8, workers=8)
@@ -462,6 +519,8 @@ def judge_and_report(chk, jobs, info, part):
             act = st["act"]
             op = act["op"] + ("(%s)" % act["fmt"] if act.get("fmt") else "") + ("(%s)" % act["form"] if act["op"] == "simulate" and act.get("form") else "")
             key = "%s:%s" % (op, clause)
+            if act["op"] == "reindex" and act.get("bad"):
+                key += ":" + act["bad"]
             if clause in ("frame", "state-changed-on-raise") and slot >= 1 and k >= 2:
                 key += ":" + diff_label(job["steps"][k - 2]["heap"][slot - 1], st["heap"][slot - 1])
             if prov:
@@ -515,7 +574,7 @@ def run(chk):
     chk.part("behaviour_stats", distinct_histories=len(seen_h), nontrivial=nontriv, steps=nsteps,
              rule="evaluations = replayed steps; non-trivial = distinct histories with at least one step after `new` that changes "
                   "an object or is rejected")
-    missing = [o for o in ALL_OPS if o not in opstat]
+    missing = [o for o in ALL_OPS + DERIVED_OPS if o not in opstat]
     if missing:
         raise tlc.TLCError("vacuity: operations never generated: %s" % missing)
     chk.part("operations", counts={k: {"steps": v[0], "raised": v[1]} for k, v in sorted(opstat.items())})
